@@ -14,6 +14,7 @@ extern "C" void __gcov_dump(void);  // coverage build only (check/coverage.py)
 #endif
 #include <cstdlib>
 #include <sys/resource.h>
+#include <sys/time.h>
 #include <sys/wait.h>
 #include <unistd.h>
 
@@ -617,10 +618,16 @@ main()
         // (e.g. a loop over plain memory that does not terminate) cannot be preempted by the baton scheduler
         // The guard is on CPU time: a non-terminating local loop burns a core, a thread that merely waits for its turn on
         // a loaded machine does not.  The wall-clock alarm is a back-stop that only makes the scenario be skipped.
+        // It counts user-mode time only (ITIMER_VIRTUAL): the baton hand-over between many threads costs system time,
+        // which says nothing about the code under test.  Total CPU time and wall-clock time are back-stops that only
+        // make the scenario be skipped.
         {
+          struct itimerval it {};
+          it.it_value.tv_sec = 20;
+          setitimer(ITIMER_VIRTUAL, &it, nullptr);
           struct rlimit rl;
-          rl.rlim_cur = 20;
-          rl.rlim_max = 25;
+          rl.rlim_cur = 300;
+          rl.rlim_max = 305;
           setrlimit(RLIMIT_CPU, &rl);
         }
         alarm(std::getenv("VERIF_ALARM") ? static_cast<unsigned>(std::atoi(std::getenv("VERIF_ALARM"))) : 120U);
@@ -632,11 +639,11 @@ main()
       }
       int st = 0;
       waitpid(pid, &st, 0);
-      if (WIFSIGNALED(st) && (WTERMSIG(st) == SIGXCPU || WTERMSIG(st) == SIGKILL)) {
+      if (WIFSIGNALED(st) && WTERMSIG(st) == SIGVTALRM) {
         ++hangs;
         std::printf("END hang\n");
         std::fflush(stdout);
-      } else if (WIFSIGNALED(st) && WTERMSIG(st) == SIGALRM) {
+      } else if (WIFSIGNALED(st) && (WTERMSIG(st) == SIGALRM || WTERMSIG(st) == SIGXCPU || WTERMSIG(st) == SIGKILL)) {
         std::printf("END skipped\n");  // wall-clock back-stop on a loaded machine: not a verdict
         std::fflush(stdout);
       } else if (!(WIFEXITED(st) && WEXITSTATUS(st) == 0)) {
